@@ -720,8 +720,9 @@ class Interp:
                 for e, x in zip(t.elts, v[1]):
                     self._assign(e, x, st, quiet)
             elif v[0] == "c" and isinstance(v[1], tuple) and len(v[1]) == len(t.elts):
+                from .sym import const_or_name as _con
                 for e, x in zip(t.elts, v[1]):
-                    self._assign(e, C(x), st, quiet)
+                    self._assign(e, _con(x) if type(x).__name__ in ("SymName", "SymCall", "SymLambda") else C(x), st, quiet)
             else:
                 for i, e in enumerate(t.elts):
                     self._assign(e, self._rewrite(("item", v, i)), st, quiet)
@@ -926,10 +927,10 @@ class _EvalBuilder(_Builder):
             s = self._fold_call(s)
             if s[0] != "call":
                 return s
-            if not self.pure and i.auto_inline and s[1][0] == "call" and s[1][1][0] == "n" and all(a[0] == "c" for a in s[1][2]) and not s[1][3]:
-                # F(consts)(args): a factory taken from a table of the module; its result (a closure) is what gets applied
+            if not self.pure and i.auto_inline and s[1][0] == "call" and s[1][1][0] == "n" and not s[1][3]:
+                # F(..)(args): a factory / selector of the module; what it returns (a closure, a function reference) is applied
                 inner = self._maybe_inline(s[1], n)
-                if inner is not None and inner[0] == "opaque":
+                if inner is not None and (inner[0] == "opaque" or (inner[0] in ("n", "a") and inner in _sym_function_refs())):
                     s = ("call", inner, s[2], s[3])
             if not self.pure:
                 if i.force_bool_kwargs and any(k in i.force_bool_kwargs for k, _ in s[3]):
@@ -1061,6 +1062,9 @@ class _EvalBuilder(_Builder):
             # b"".join([a, b, c]) is a + b + c
             items = args[0][1]
             return items[0] if len(items) == 1 else simplify(OP("+", *items))
+        if not kw and not args and f[0] == "a" and f[1][0] == "c" and isinstance(f[1][1], dict) and f[2] in ("items", "keys", "values") and len(f[1][1]) <= 64:
+            d_ = f[1][1]
+            return C(tuple(d_.items()) if f[2] == "items" else tuple(d_.keys()) if f[2] == "keys" else tuple(d_.values()))
         if not kw and len(args) == 1 and dotted(f) in ("os.path.commonprefix", "commonprefix"):
             # the longest common leading run of constant sequences (a pure standard-library function)
             seqs = None
@@ -1344,6 +1348,11 @@ class _EvalBuilder(_Builder):
         except Exception:
             pass
         return (i.mod, fn)
+
+
+def _sym_function_refs():
+    from .sym import FUNCTION_REFS
+    return FUNCTION_REFS
 
 
 def _pure_reads(fn: ast.AST, nm: str) -> List[ast.AST]:
